@@ -9,6 +9,7 @@ import (
 )
 
 var harnesses = map[string]func(){
+	"webh.H_ChiConc": webh.H_ChiConc,
 	"webh.H_Chi": webh.H_Chi,
 }
 
